@@ -32,7 +32,7 @@ import SophiaModel.Gen.SparqlDispatch
 
 namespace SophiaModel.Sparql
 open SophiaModel Term
-open SophiaModel.SparqlSpec (TP Func Expr GName GP QDataset Query xsdString xsdInteger xsdBoolean xsd)
+open SophiaModel.SparqlSpec (TP Func Expr CmpOp AOp GName GP QDataset Query xsdString xsdInteger xsdBoolean xsd)
 
 /-! ## binding.rs -/
 
@@ -194,10 +194,52 @@ inductive Value
   | bool (b : Option Bool)
   deriving Repr, DecidableEq, Inhabited
 
-def isDigit := SparqlSpec.isDigit
+/-- `b'0'..=b'9'` -/
+def isDigit (c : Char) : Bool := 48 ≤ c.toNat && c.toNat ≤ 57
 
-/-- `str::parse::<isize>()`, falling back to `BigInt` : optional sign, at least one digit -/
-def rustParseInt (lex : Str) : Option Int := SparqlSpec.parseInteger lex
+def digitVal (c : Char) : Nat := c.toNat - 48
+
+/-- `<isize as FromStr>::from_str` (core::num, radix 10) up to the overflow check: empty string and a
+lone sign are errors, one optional `+`/`-`, then digits only.  (Values that do not fit an `isize`
+are an error there and are parsed again by `BigInt`, with the same result for these strings; the
+model keeps one unbounded integer.) -/
+def parseNative (lex : Str) : Option Int :=
+  let digits (ds : List Char) : Option Nat :=
+    if ds.isEmpty then none
+    else ds.foldl (fun acc c => acc.bind (fun n => if isDigit c then some (n * 10 + digitVal c) else none)) (some 0)
+  match lex with
+  | [] => none
+  | ['+'] => none
+  | ['-'] => none
+  | '+' :: ds => (digits ds).map Int.ofNat
+  | '-' :: ds => (digits ds).map (fun n => -(Int.ofNat n))
+  | ds => (digits ds).map Int.ofNat
+
+/-- `BigUint::from_str_radix(s, 10)` (num-bigint 0.4): one `+` is stripped unless another follows,
+the rest must be non-empty, must not start with `_`, and consists of digits and `_` (skipped) -/
+def parseBigUint (s : Str) : Option Nat :=
+  let s := match s with
+    | '+' :: tail => (match tail with | '+' :: _ => s | _ => tail)
+    | _ => s
+  match s with
+  | [] => none
+  | '_' :: _ => none
+  | _ => s.foldl (fun acc c => acc.bind (fun n =>
+      if c = '_' then some n else if isDigit c then some (n * 10 + digitVal c) else none)) (some 0)
+
+/-- `BigInt::from_str_radix(s, 10)`: a leading `-` gives the sign (and is stripped unless `+` follows) -/
+def parseBigInt (s : Str) : Option Int :=
+  match s with
+  | '-' :: tail =>
+    let s' := match tail with | '+' :: _ => s | _ => tail
+    (parseBigUint s').map (fun n => -(Int.ofNat n))
+  | _ => (parseBigUint s).map Int.ofNat
+
+/-- `SparqlNumber::try_parse_integer`: `lex.parse::<isize>()`, else `lex.parse::<BigInt>()` -/
+def rustParseInt (lex : Str) : Option Int :=
+  match parseNative lex with
+  | some i => some i
+  | none => parseBigInt lex
 
 /-- `SparqlValue::try_from_literal` for the modelled datatypes; other `xsd:` types that the code
 recognises are excluded by the driver (`Scope.unmodelled`) -/
@@ -259,9 +301,19 @@ def ER.asValue : ER → Option Value
 
 def ER.intoTerm := ER.asTerm
 
+/-- `EvalResult::as_number` -/
+def ER.asNumber (r : ER) : Option Int :=
+  match r.asValue with
+  | some (.num i) => some i
+  | _ => none
+
 def ER.isTruthy (r : ER) : Option Bool := r.asValue.bind Value.isTruthy
 
-def termIsLiteral := SparqlSpec.isLiteral
+/-- `Term::is_literal` -/
+def termIsLiteral : Term → Bool
+  | .lit _ _ => true
+  | .lang _ _ => true
+  | _ => false
 
 /-- `EvalResult::sparql_eq` -/
 def ER.sparqlEq (a b : ER) : Option Bool :=
@@ -361,6 +413,41 @@ def evalExpr (b : Binding) : Expr → Option ER
   | .call f a => do
     let arg ← evalExpr b a
     callFunction f arg
+  -- Greater / LessOrEqual / GreaterOrEqual: `sparql_cmp(..).map(|ord| ord.is_gt() / is_le() / is_ge())`
+  | .cmp op l r => do
+    let lhs ← evalExpr b l
+    let rhs ← evalExpr b r
+    (lhs.sparqlCmp rhs).map (fun o => erBool (match op with
+      | .gt => o == .gt
+      | .le => o != .gt
+      | .ge => o != .lt))
+  -- Add / Subtract / Multiply: `(lhs.as_number()? op rhs.as_number()?)`; on integers `checked_op`
+  -- falling back to `BigInt`, i.e. exact
+  | .arith op l r => do
+    let lhs ← evalExpr b l
+    let rhs ← evalExpr b r
+    let x ← lhs.asNumber
+    let y ← rhs.asNumber
+    pure (.value (.num (match op with | .add => x + y | .sub => x - y | .mul => x * y)))
+  | .neg e => do
+    let x ← (← evalExpr b e).asNumber
+    pure (.value (.num (-x)))
+  | .pos e => do
+    let x ← (← evalExpr b e).asNumber
+    pure (.value (.num x))
+  -- `if c.eval(..)?.is_truthy().unwrap_or(false) { t.eval(..) } else { e.eval(..) }`
+  | .ite c t e => do
+    let cv ← evalExpr b c
+    if cv.isTruthy.getD false then evalExpr b t else evalExpr b e
+  -- `In`: the first element whose comparison is not `Some(false)` decides (an error stops the scan)
+  | .inl a e rest => do
+    let lhs ← evalExpr b a
+    let r := (evalExpr b e).bind (fun o => lhs.sparqlEq o)
+    if r != some false then r.map erBool
+    else evalExpr b rest
+  -- `Coalesce`: `find_map`
+  | .coalesce a rest => (evalExpr b a).or (evalExpr b rest)
+  | .err => none
 
 /-! ## exec.rs -/
 
@@ -407,6 +494,11 @@ def graphRec (sel : List (Option Term) → Option Binding → Except Err Res) (x
     let r' ← graphRec sel x binding rest
     pure { vars := r.vars, rows := r.rows ++ r'.rows }
 
+/-- `iter.skip(start)` then `.take(n)` if a length is given -/
+def sliceRows {α : Type} (rows : List α) (start : Nat) : Option Nat → List α
+  | some n => (rows.drop start).take n
+  | none => rows.drop start
+
 /-- `ExecState::select` -/
 def select (D : List Quad) : GP → List (Option Term) → Option Binding → Except Err Res
   | .bgp ps, gm, binding => bgp D ps gm binding
@@ -416,6 +508,16 @@ def select (D : List Quad) : GP → List (Option Term) → Option Binding → Ex
   | .filter e inner, gm, binding => do
     let r ← select D inner gm binding
     pure { r with rows := r.rows.filter (filterKeeps e) }
+  -- `Filter { expr: Exists(pat) | Not(Exists(pat)), inner }`: the `Exists` arm of `ArcExpression::eval`
+  -- runs `select(pat, graph_matcher, Some(binding))` on a fresh `ExecState` over the same config and
+  -- maps `Err(_)` to `false`
+  | .filterExists neg pat inner, gm, binding => do
+    let r ← select D inner gm binding
+    pure { r with rows := r.rows.filter (fun b =>
+      let ex := match select D pat gm (some b) with
+        | .ok r' => !r'.rows.isEmpty
+        | .error _ => false
+      if neg then !ex else ex) }
   | .union l r, gm, binding => do
     let a ← select D l gm binding
     let c ← select D r gm binding
@@ -449,7 +551,7 @@ def select (D : List Quad) : GP → List (Option Term) → Option Binding → Ex
   | .reduced _, _, _ => .error (.notImplemented "Reduced")
   | .slice inner start len, gm, binding => do
     let r ← select D inner gm binding
-    pure { r with rows := SparqlSpec.sliceList r.rows start len }
+    pure { r with rows := sliceRows r.rows start len }
   | .group _, _, _ => .error (.notImplemented "Group")
   | .service _, _, _ => .error (.notImplemented "Service")
 
